@@ -98,7 +98,7 @@ def r03_1_numbering(chk):
     ok = len(rb.head) == 2 and rb.head[0] == A(SELF, "_frame", "obname") and is_frame_number(rb.head[1])
     chk.require(ok, "R03.1", "body-starts-obname-then-frame-number",
                 f"the FDATA body starts with {[pp(p)[:40] for p in rb.head[:2]]}", body.where)
-    ok = len(rb.pieces) == 1 and rb.pieces[0][0] == A(SELF, "_slots") and not rb.tail
+    ok = len(rb.pieces) >= 1 and all(p[0] == A(SELF, "_slots") for p in rb.pieces) and not rb.tail
     chk.require(ok, "R03.1", "one-piece-per-slot-in-row-order",
                 "the slots of the row are not appended one by one in the row's own order", body.where)
     for m in memo_sites(ix):
@@ -123,7 +123,7 @@ def r03_2_byte_order(chk):
     # FrameData: every slot swapped exactly once, copying form
     rb = row_body(chk)
     body = rb.func
-    ok = len(rb.pieces) == 1
+    ok = len(rb.pieces) >= 1
     for it, el, piece in rb.pieces:
         swaps = [x for x in subterms(piece) if is_call(x, "byteswap")]
         ok = ok and is_call(piece, "tobytes", 0) and len(swaps) == 1 and piece[1][1] == swaps[0] and \
